@@ -83,17 +83,21 @@ class TJob(job_control.Job):
         self.name, self.hist, self.kind, self.length = name, hist, kind, length
         self.stop = False
         self.runs = 0
+        self.iterations = 0
+        self.stop_seen_at_start = None
 
     def execute(self):
         s = sched.S
         self.hist.append(('start', self.name, len(self.hist)))
         self.runs += 1
+        self.stop_seen_at_start = self.stop
         try:
             if self.kind == 'loop':
                 n = 0
                 while not self.stop and n < 200:
                     s.switch('body')
                     n += 1
+                    self.iterations = n
             else:
                 for _ in range(self.length):
                     s.switch('body')
@@ -373,6 +377,25 @@ def analyse(ctx, out, clients, replay):
             ctx.violation('background-runs-{}'.format(k),
                           'background job {} ran {} times'.format(name, k),
                           replay)
+            return False
+    # a stop through a job's handle that had returned before the job started
+    # is not lost: the body finds the request waiting for it
+    handle_stop_ret = {}
+    for h in hist:
+        if h[0] == 'ret' and h[2] == 'stop_handle':
+            handle_stop_ret.setdefault(h[3], h[4])
+    for name, t_ret in handle_stop_ret.items():
+        t_start = next((h[2] for h in hist if h[0] == 'start'
+                        and h[1] == name), None)
+        job = out['jobs'].get(name)
+        if job is None or t_start is None or t_start < t_ret:
+            continue
+        ctx.count('handle_stops_before_start')
+        if job.stop_seen_at_start is False:
+            ctx.violation('stop-through-handle-lost',
+                          'job {} was asked to stop through its handle before '
+                          'it started, and started without the request'
+                          .format(name), replay)
             return False
     if out['has_jobs'] or out['background'] or out['queued'] \
             or out['current'] is not None:
